@@ -130,7 +130,9 @@ func (t *Trie) getWithPath(curr Node, path []byte, strict bool) (Node, Node, []b
 				return nil, nil, nil, err
 			}
 			n.next = r
-			return curr, res, append(n.key, prefix...), err
+			// The key can share memory with other nodes' keys (they're cut from
+			// one path), so it must not be appended to in place.
+			return curr, res, slices.Concat(n.key, prefix), err
 		}
 		if !strict && bytes.HasPrefix(n.key, path) {
 			// path is shorter than prefix, stop seeking
